@@ -90,6 +90,8 @@ func storeOpts(c *cfgClass, lg *capLogger) *store.Options {
 		WithMaxActiveTransactions(8).
 		WithMaxWaitees(8).
 		WithTxLogCacheSize(4).
+		WithWriteBufferSize(8192). // the defaults (4 MiB per log, 16 MiB per AHT log) make every Open zero ~70 MiB
+		WithAHTOptions(store.DefaultAHTOptions().WithWriteBufferSize(8192).WithSyncThld(64)).
 		WithLogger(lg).
 		WithTimeFunc(func() time.Time { return fixed })
 	o.WithIndexOptions(store.DefaultIndexOptions().WithCacheSize(64).WithMaxActiveSnapshots(4))
@@ -197,7 +199,8 @@ func (it *item) key() string { return it.Path + "|" + fmt.Sprint(it.Tx) + "|" + 
 // goroutine is blocked at a site where a hang was already confirmed twice
 var (
 	d1 = 150 * time.Millisecond
-	d2 = 3 * time.Second
+	d2 = 4 * time.Second
+	d3 = 90 * time.Second
 
 	confirmedMu    sync.Mutex
 	confirmedSites = map[string]int{}
@@ -216,11 +219,15 @@ func curGID() string {
 	return string(m[1])
 }
 
-var reFrame = regexp.MustCompile(`^([^\s(][^\n]*?)\(`)
+var stackBufs = sync.Pool{New: func() interface{} { b := make([]byte, 1<<19); return &b }}
+
+var reFrame = regexp.MustCompile(`^(\S.*)\(.*\)$`)
 
 // blockedSite describes where goroutine gid is blocked: wait state + the first frames.
 func blockedSite(gid string) string {
-	buf := make([]byte, 1<<20)
+	bp := stackBufs.Get().(*[]byte)
+	defer stackBufs.Put(bp)
+	buf := *bp
 	n := runtime.Stack(buf, true)
 	for _, blk := range strings.Split(string(buf[:n]), "\n\n") {
 		if !strings.HasPrefix(blk, "goroutine "+gid+" [") {
@@ -291,23 +298,43 @@ func call(path string, tx int, sub string, f func() callResult) item {
 		returned = true
 	})
 	if hung {
+		// A missed first deadline is only a suspicion.  It becomes a hang when the goroutine sits blocked (mutex,
+		// channel, condition) at the same site for d2, or has not finished after d3 in any state (the machine may
+		// be heavily loaded: a running goroutine gets the long deadline).  A blocked site where a hang was already
+		// confirmed twice on this path is taken as the same hang at once.
 		site := blockedSite(gid)
+		isBlocked := func(st string) bool {
+			return !strings.HasPrefix(st, "running") && !strings.HasPrefix(st, "runnable") && !strings.HasPrefix(st, "syscall") &&
+				!strings.HasPrefix(st, "IO wait") && !strings.HasPrefix(st, "sleep") && !strings.HasPrefix(st, "GC ") && st != "goroutine gone"
+		}
 		confirmedMu.Lock()
-		known := confirmedSites[path+"|"+site] >= 2 && !strings.HasPrefix(site, "running") && !strings.HasPrefix(site, "runnable") && site != "goroutine gone"
+		known := confirmedSites[path+"|"+site] >= 2 && isBlocked(site)
 		confirmedMu.Unlock()
 		if !known {
-			select {
-			case <-done:
-				hung = false
-				lateFinishes.Add(1)
-			case <-time.After(d2 - d1):
-				site2 := blockedSite(gid)
-				if site2 == site {
+			start := time.Now()
+			sameSince := start
+		wait:
+			for {
+				select {
+				case <-done:
+					hung = false
+					lateFinishes.Add(1)
+					break wait
+				case <-time.After(250 * time.Millisecond):
+				}
+				now := blockedSite(gid)
+				if now != site {
+					site, sameSince = now, time.Now()
+				}
+				if isBlocked(site) && time.Since(sameSince) >= d2 {
 					confirmedMu.Lock()
 					confirmedSites[path+"|"+site]++
 					confirmedMu.Unlock()
+					break wait
 				}
-				site = site2
+				if time.Since(start) >= d3 {
+					break wait
+				}
 			}
 		}
 		if hung {
@@ -600,6 +627,19 @@ func runPaths(o *opened, lay *layout) []item {
 		}
 		add(it)
 	}
+	// once more on tx 1: an export that failed must not leave the store unable to export
+	if !stop {
+		add(call(pExport, 1, "again", func() callResult {
+			b, err := st.ExportTx(1, false, false, holder())
+			if err != nil {
+				return callResult{err: err}
+			}
+			return callResult{content: hex.EncodeToString(b)}
+		}))
+		if l := &items[len(items)-1]; l.Hung && prevErr != "" {
+			l.Site += " after ExportTx error '" + prevErr + "'"
+		}
+	}
 	return items
 }
 
@@ -697,6 +737,34 @@ func runIndexRebuild(dir string, c *cfgClass, lay *layout) []item {
 			})
 			items = append(items, it)
 			if it.Hung {
+				return items
+			}
+			// every indexed version of the key, each value dereferenced
+			hit := call(pIndex, 0, "history:"+string(key), func() callResult {
+				refs, _, err := st.History(key, 0, false, 100)
+				if errors.Is(err, store.ErrKeyNotFound) {
+					return callResult{content: "absent from the index"}
+				}
+				if err != nil {
+					return callResult{err: err}
+				}
+				var cs, ls []string
+				for _, ref := range refs {
+					hv := ref.HVal()
+					v, err := ref.Resolve()
+					if errors.Is(err, store.ErrExpiredEntry) {
+						v, err = []byte("expired"), nil
+					}
+					if err != nil {
+						return callResult{err: fmt.Errorf("Resolve of the version of tx %d: %w", ref.Tx(), err)}
+					}
+					cs = append(cs, fmt.Sprintf("tx=%d hc=%d kvmd=%s txmd=%s hVal=%x value=%x", ref.Tx(), ref.HC(), kvmdHex(ref.KVMetadata()), mdHex(ref.TxMetadata()), hv, v))
+					ls = append(ls, fmt.Sprintf("vLen=%d vOff=%x", ref.Len(), uint64(ref.VOff())))
+				}
+				return callResult{content: strings.Join(cs, ";"), loc: strings.Join(ls, ";")}
+			})
+			items = append(items, hit)
+			if hit.Hung {
 				return items
 			}
 		}
